@@ -1,4 +1,6 @@
-(* driver for C13: fields: id c13 <responses: code:tag(- none),...> ; output one token list per response *)
+(* driver for C13: fields: id c13 <responses: code:tag(- none),...> [slow] ; output one token list per response.
+   With the fourth field `slow` the application reads its early dialogs only after every response has arrived: what is
+   forwarded to an early dialog then goes through the channel model (Model/C13q.v), a response the channel loses reaches nobody *)
 let () =
   for_each_case Sys.argv.(1) (fun f ->
     let rs = List.filter (fun s -> s <> "") (split_on ',' f.(2)) in
@@ -6,7 +8,21 @@ let () =
       | [c; t] -> (c, { rs_code = n_of_decimal c; rs_tag = (if t = "-" then None else Some (bytes_of_string t)) })
       | _ -> failwith "bad response") rs in
     let (_, acts) = run (List.map snd rs) in
-    let toks = List.map2 (fun (c, _) a -> match a with
+    let slow = Array.length f > 3 && f.(3) = "slow" in
+    let lost_idx =
+      if not slow then [] else begin
+        (* per early dialog: every forwarded response arrives, then the application reads as often as there were arrivals *)
+        let tags = List.sort_uniq compare (List.filter_map (function ForwardToEarly (t, _) -> Some t | _ -> None) acts) in
+        List.concat_map (fun tag ->
+          let idx = List.filter_map (fun x -> x)
+            (List.mapi (fun i a -> match a with ForwardToEarly (t, _) when t = tag -> Some (n_of_decimal (string_of_int i)) | _ -> None) acts) in
+          let evs = List.map (fun i -> Arrive i) idx @ List.map (fun _ -> Read) idx in
+          let c = early_chan evs in
+          List.map (fun i -> int_of_string (decimal_of_n i)) c.lost) tags
+      end in
+    let toks = List.mapi (fun i ((c, _), a) ->
+      if List.mem i lost_idx then "-" else
+      match a with
       | ToCallerProvisional -> "provisional:" ^ c
       | ToCallerEarly t -> "early:" ^ string_of_bytes t ^ ":" ^ c
       | ToCallerSession t -> "session:" ^ string_of_bytes t
@@ -14,5 +30,5 @@ let () =
       | ForwardToEarly (t, false) -> "early-prov:" ^ string_of_bytes t ^ ":" ^ c
       | ForwardToEarly (t, true) -> "early-session:" ^ string_of_bytes t
       | Ignored -> "-"
-      | Panic -> "MODEL-PANIC") rs acts in
+      | Panic -> "MODEL-PANIC") (List.combine rs acts) in
     String.concat " " toks)
